@@ -33,6 +33,75 @@ ID = 'C04'
 PV = 'sdc11073.provider.providerimpl.SdcProvider'
 
 
+def description_report_parts(ctx, rule):
+    """mk_description_modification_report_body: one part per listed descriptor, stamped and filled completely."""
+    repo = ctx.repo
+    dm = repo.func('sdc11073.provider.porttypes.descriptioneventserviceimpl.DescriptionEventService.'
+                   'mk_description_modification_report_body')
+    # by role: P = the local that gets report.add_report_part(); D = the variable of the innermost loop around that statement;
+    # in that loop P gets type, parent and source MDS of D, D itself, and ALL updated states whose DescriptorHandle is D.Handle
+    gdm = cfg_of(dm)
+    ok = False
+    wit = {}
+    mk_part = [n for n, c in gdm.nodes_calling('add_report_part') if n.kind == 'stmt' and isinstance(n.stmt, ast.Assign)
+               and isinstance(n.stmt.targets[0], ast.Name) and n.loops and isinstance(n.loops[-1], ast.For)
+               and isinstance(n.loops[-1].target, ast.Name)]
+    if len(mk_part) == 1:
+        pn = mk_part[0]
+        P, loop = pn.stmt.targets[0].id, pn.loops[-1]
+        D = loop.target.id
+        in_loop = [n for n in gdm.real_nodes() if n.loops and n.loops[-1] is loop and gdm.dominates(pn, n)]
+        stores = {unparse(n.stmt.targets[0]): unparse(n.stmt.value) for n in in_loop
+                  if n.kind == 'stmt' and isinstance(n.stmt, ast.Assign) and unparse(n.stmt.targets[0]).startswith(f'{P}.')}
+        appended = [unparse(c.args[0]) for n in in_loop for c in n.calls()
+                    if unparse(c.func) == f'{P}.Descriptor.append' and c.args]
+        sel_ok = False
+        for n in in_loop:
+            for c in n.calls():
+                if unparse(c.func) == f'{P}.State.extend' and c.args:
+                    v = gdm.symbolic(n, c.args[0])
+                    if isinstance(v, ast.ListComp) and len(v.generators) == 1 and len(v.generators[0].ifs) == 1 and \
+                            isinstance(v.generators[0].target, ast.Name) and unparse(v.elt) == v.generators[0].target.id:
+                        t = v.generators[0].target.id
+                        params = [x.arg for x in dm.node.args.args]
+                        from_param = unparse(v.generators[0].iter) == f'${params.index("updated_states")}' \
+                            if 'updated_states' in params else False
+                        cond = v.generators[0].ifs[0]
+                        d_sym = gdm.symbolic_text(n, ast.Name(id=D, ctx=ast.Load()))
+                        sides = {unparse(cond.left), unparse(cond.comparators[0])} if isinstance(cond, ast.Compare) and \
+                            len(cond.ops) == 1 and isinstance(cond.ops[0], ast.Eq) else set()
+                        sel_ok = from_param and sides == {f'{t}.DescriptorHandle', f'{d_sym}.Handle'}
+        mod_type = stores.get(f'{P}.ModificationType')
+        wit = {'part': P, 'descriptor': D, 'stores': stores, 'appended': appended, 'state selection ok': sel_ok}
+        ok = appended == [D] and sel_ok and mod_type is not None and \
+            stores.get(f'{P}.ParentDescriptor') == f'{D}.parent_handle' and stores.get(f'{P}.SourceMds') == f'{D}.source_mds'
+    if len(mk_part) == 1:
+        # ... and every descriptor of the three lists gets one: the part is created unconditionally in each iteration (the
+        # same descriptor can be listed more than once - once per added / removed child - with increasing versions, the
+        # consumer needs the last one)
+        pn = mk_part[0]
+        skip = [n for n in gdm.nodes if n.kind == 'continue' and n.loops and n.loops[-1] is pn.loops[-1]]
+        cond_free = not gdm.facts_at(pn) and not skip
+        ctx.ob(rule, 'one part per listed descriptor', cond_free,
+               'a report part is created for every element of the updated / created / deleted lists' if cond_free else
+               f'the report part of a listed descriptor is created only under {list(gdm.facts_at(pn))[:3]} (or skipped by '
+               f'`continue`): a descriptor that the commit lists more than once (parent of two new children) is reported with '
+               f'its first version only, the consumer keeps a DescriptorVersion the provider has already passed', fi=dm)
+    ctx.ob(rule, 'description report parts', ok,
+           'every changed descriptor gets its own part with type, parent, source MDS and ALL updated states whose '
+           'DescriptorHandle is that descriptor' if ok else
+           'the description modification report does not carry, per descriptor, the complete list of its updated states '
+           '(e.g. several context states of one descriptor)', fi=dm, witness=wit)
+    outer = [n for n in ast.walk(dm.node) if isinstance(n, ast.For) and isinstance(n.iter, ast.Tuple)]
+    kinds = sorted(unparse(e) for n in outer for e in n.iter.elts)
+    ok = len(outer) == 1 and len(outer[0].iter.elts) == 3 and \
+        {unparse(e.elts[0]) for e in outer[0].iter.elts} == {'updated', 'created', 'deleted'} and \
+        {unparse(e.elts[1]).rsplit('.', 1)[-1] for e in outer[0].iter.elts} == {'UPDATE', 'CREATE', 'DELETE'} and \
+        all(unparse(e.elts[0])[:3].upper() == unparse(e.elts[1]).rsplit('.', 1)[-1][:3] for e in outer[0].iter.elts)
+    ctx.ob(rule, 'modification types', ok,
+           'updated / created / deleted descriptors are reported with UPDATE / CREATE / DELETE', fi=dm, witness=kinds)
+
+
 def run(ctx):  # noqa: C901, PLR0912, PLR0915
     repo = ctx.repo
     ctx.rule('C04.R1', 'one version group per commit, read under the commit locks, same value in every report; sends block')
@@ -190,58 +259,7 @@ def run(ctx):  # noqa: C901, PLR0912, PLR0915
                 f'{parts[0]}.values_list.extend({st_v})' in body and not any(isinstance(s, ast.If) for s in lp.body)
         ctx.ob('C04.R2', f'{fname}', ok and n_loop == 1,
                f'{fname}: one report part per source MDS, stamped with that MDS and filled with exactly its states', fi=fi)
-    dm = repo.func('sdc11073.provider.porttypes.descriptioneventserviceimpl.DescriptionEventService.'
-                   'mk_description_modification_report_body')
-    # by role: P = the local that gets report.add_report_part(); D = the variable of the innermost loop around that statement;
-    # in that loop P gets type, parent and source MDS of D, D itself, and ALL updated states whose DescriptorHandle is D.Handle
-    gdm = cfg_of(dm)
-    ok = False
-    wit = {}
-    mk_part = [n for n, c in gdm.nodes_calling('add_report_part') if n.kind == 'stmt' and isinstance(n.stmt, ast.Assign)
-               and isinstance(n.stmt.targets[0], ast.Name) and n.loops and isinstance(n.loops[-1], ast.For)
-               and isinstance(n.loops[-1].target, ast.Name)]
-    if len(mk_part) == 1:
-        pn = mk_part[0]
-        P, loop = pn.stmt.targets[0].id, pn.loops[-1]
-        D = loop.target.id
-        in_loop = [n for n in gdm.real_nodes() if n.loops and n.loops[-1] is loop and gdm.dominates(pn, n)]
-        stores = {unparse(n.stmt.targets[0]): unparse(n.stmt.value) for n in in_loop
-                  if n.kind == 'stmt' and isinstance(n.stmt, ast.Assign) and unparse(n.stmt.targets[0]).startswith(f'{P}.')}
-        appended = [unparse(c.args[0]) for n in in_loop for c in n.calls()
-                    if unparse(c.func) == f'{P}.Descriptor.append' and c.args]
-        sel_ok = False
-        for n in in_loop:
-            for c in n.calls():
-                if unparse(c.func) == f'{P}.State.extend' and c.args:
-                    v = gdm.symbolic(n, c.args[0])
-                    if isinstance(v, ast.ListComp) and len(v.generators) == 1 and len(v.generators[0].ifs) == 1 and \
-                            isinstance(v.generators[0].target, ast.Name) and unparse(v.elt) == v.generators[0].target.id:
-                        t = v.generators[0].target.id
-                        params = [x.arg for x in dm.node.args.args]
-                        from_param = unparse(v.generators[0].iter) == f'${params.index("updated_states")}' \
-                            if 'updated_states' in params else False
-                        cond = v.generators[0].ifs[0]
-                        d_sym = gdm.symbolic_text(n, ast.Name(id=D, ctx=ast.Load()))
-                        sides = {unparse(cond.left), unparse(cond.comparators[0])} if isinstance(cond, ast.Compare) and \
-                            len(cond.ops) == 1 and isinstance(cond.ops[0], ast.Eq) else set()
-                        sel_ok = from_param and sides == {f'{t}.DescriptorHandle', f'{d_sym}.Handle'}
-        mod_type = stores.get(f'{P}.ModificationType')
-        wit = {'part': P, 'descriptor': D, 'stores': stores, 'appended': appended, 'state selection ok': sel_ok}
-        ok = appended == [D] and sel_ok and mod_type is not None and \
-            stores.get(f'{P}.ParentDescriptor') == f'{D}.parent_handle' and stores.get(f'{P}.SourceMds') == f'{D}.source_mds'
-    ctx.ob('C04.R2', 'description report parts', ok,
-           'every changed descriptor gets its own part with type, parent, source MDS and ALL updated states whose '
-           'DescriptorHandle is that descriptor' if ok else
-           'the description modification report does not carry, per descriptor, the complete list of its updated states '
-           '(e.g. several context states of one descriptor)', fi=dm, witness=wit)
-    outer = [n for n in ast.walk(dm.node) if isinstance(n, ast.For) and isinstance(n.iter, ast.Tuple)]
-    kinds = sorted(unparse(e) for n in outer for e in n.iter.elts)
-    ok = len(outer) == 1 and len(outer[0].iter.elts) == 3 and \
-        {unparse(e.elts[0]) for e in outer[0].iter.elts} == {'updated', 'created', 'deleted'} and \
-        {unparse(e.elts[1]).rsplit('.', 1)[-1] for e in outer[0].iter.elts} == {'UPDATE', 'CREATE', 'DELETE'} and \
-        all(unparse(e.elts[0])[:3].upper() == unparse(e.elts[1]).rsplit('.', 1)[-1][:3] for e in outer[0].iter.elts)
-    ctx.ob('C04.R2', 'modification types', ok,
-           'updated / created / deleted descriptors are reported with UPDATE / CREATE / DELETE', fi=dm, witness=kinds)
+    description_report_parts(ctx, 'C04.R2')
     wf = repo.func('sdc11073.provider.porttypes.waveformserviceimpl.WaveformService.send_realtime_samples_report')
     ctx.ob('C04.R2', 'waveform report', 'report.State.extend(realtime_sample_states)' in xsrc(wf),
            'the waveform stream carries all given sample states', fi=wf)
